@@ -23,6 +23,34 @@ def parseOps : List String → Bytes → Option (List Op)
       pure (Op.setCounter (UInt32.ofNat c) :: r)
     | _ => none
 
+/-- tokens of a `cont=1` history: x / i (in place) / s / o (inexact overlap) / t (dst one byte short) -/
+def parseOpsX : List String → Bytes → Option (List OpX)
+  | [], rest => if rest.isEmpty then some [] else none
+  | t :: ts, src =>
+    match t.splitOn ":" with
+    | ["s", c] => do
+      let c ← c.toNat?
+      if c ≥ 2 ^ 32 then none else
+      let r ← parseOpsX ts src
+      pure (OpX.setCounter (UInt32.ofNat c) :: r)
+    | [k, n] => do
+      let n ← n.toNat?
+      if src.length < n then none else
+      let r ← parseOpsX ts (src.drop n)
+      if k == "x" || k == "i" then pure (OpX.xor (src.take n) :: r)
+      else if k == "o" then pure (OpX.xorOverlap (src.take n) :: r)
+      else if k == "t" then pure (OpX.xorShort (src.take n) :: r)
+      else none
+    | _ => none
+
+def showCont (ops : List OpX) (outs : List (Option Bytes)) : String :=
+  let parts := (ops.zip outs).map fun (op, b) =>
+    match b, op with
+    | none, _ => "panic"
+    | some _, .setCounter _ => "ok"
+    | some b, _ => toHex b
+  "|".intercalate ("ok" :: parts)
+
 def showRun (ops : List Op) (r : List Bytes × Option Panic) : String :=
   let outs := (ops.zip r.1).map fun (op, b) =>
     match op with
@@ -43,6 +71,18 @@ def handle (line : String) : String :=
     match o.hex? "key", o.hex? "nonce", o.get? "ops", o.hex? "src" with
     | some key, some nonce, some opsS, some src =>
       let toks := if opsS == "-" then [] else opsS.splitOn ","
+      -- `zero=1`: the zero-value `chacha20.Cipher{}` (all-zero key and nonce words) instead of the constructor
+      let mk : Nat → Option Cipher := fun m =>
+        if o.get? "zero" == some "1" then some (mkCipher m ⟨0,0,0,0,0,0,0,0⟩ ⟨0,0,0⟩) else newCipher m key nonce
+      if o.get? "cont" == some "1" then
+        -- the history continues after recovered panics (bufSize = 64 model only)
+        match parseOpsX toks src with
+        | none => "bad-op"
+        | some ops =>
+          match mk 1 with
+          | none => "err mut=-"
+          | some c => showCont ops (runCont 1 c ops) ++ " mut=-"
+      else
       match parseOps toks src with
       | none => "bad-op"
       | some ops =>
@@ -51,7 +91,7 @@ def handle (line : String) : String :=
         -- (m = 1) real code too
         let m := (o.nat? "m").getD 1
         if m = 0 || m > 8 then "bad-op" else
-        match newCipher m key nonce with
+        match mk m with
         | none => "err mut=-"
         | some c => showRun ops (run m c ops) ++ " mut=-"
     | _, _, _, _ => "bad-op"
@@ -62,6 +102,7 @@ def handle (line : String) : String :=
       | none => "err mut=-"
       | some b => toHex b ++ " mut=-"
     | _, _ => "bad-op"
+  else if o.cmd == "consts" then "32 12 24"   -- KeySize NonceSize NonceSizeX
   else "bad-op"
 
 end XC.C03
